@@ -16,7 +16,7 @@ pub fn generate(prop: &str, r: &mut Rng, id: usize, thorough: bool) -> Group {
         "C01" => gen_c01(r, id, thorough),
         "C02" => gen_c02(r, id, thorough),
         "C03" => gen_c03(r, id),
-        "C04" => crate::oracle_b::gen_c04(r, id),
+        "C04" => if r.chance(8) { gen_c04_arith(r, id) } else { crate::oracle_b::gen_c04(r, id) },
         "C05" => gen_c05(r, id, thorough),
         "C06" => gen_c06(r, id),
         "C07" => gen_c07(r, id),
@@ -151,6 +151,34 @@ pub fn gen_c03(r: &mut Rng, id: usize) -> Group {
 
 // ---------------------------------------------------------------------------------- C05
 
+/// C04: an arithmetic function with exactly one argument that is not a number (or is absent), at every
+/// position, next to zero / ordinary factors — "if all the arguments are number …" otherwise nothing
+pub fn gen_c04_arith(r: &mut Rng, id: usize) -> Group {
+    let (f, lo, hi) = *r.pick(&[("+", 2usize, 4usize), ("add", 2, 4), ("*", 2, 4), ("times", 2, 4), ("-", 2, 2), ("/", 2, 2), ("%", 2, 2)]);
+    let n = r.range(lo, hi);
+    let bad_at = r.below(n);
+    let args: Vec<String> = (0..n)
+        .map(|i| {
+            if i == bad_at {
+                r.ps(&["\"x\"", "null", "true", "[1]", "{}", ".missing", ".s", "\"3\""]).to_string()
+            } else {
+                r.ps(&["0", "0.0", "1", "2.5", "-3", ".a", ".z", "1e300"]).to_string()
+            }
+        })
+        .collect();
+    let e = format!("({f} {})", args.join(if r.chance(50) { " " } else { ", " }));
+    let mut c = case(format!("C04-{id}"));
+    c.spec.selects.push(format!("{e}=x"));
+    c.spec.utf8 = true;
+    c.sources.push(stdin_src(b"{\"a\":7,\"z\":0,\"s\":\"text\"}\n{\"a\":0,\"z\":0.0,\"s\":\"\"}".to_vec()));
+    let mut g = Group::new(vec![c]);
+    g.tag = format!("arith-illtyped {e}");
+    g.nontrivial = true;
+    g.labels.push("kind:arith-illtyped".into());
+    g.labels.push(format!("fn:{f}"));
+    g
+}
+
 /// C05 grid: every ordered PAIR of edge integers through every two-argument arithmetic / comparison /
 /// collection function, operands as literals and as input data — enumerated, not sampled (the first
 /// `c05_grid_size()` group ids of every run)
@@ -208,9 +236,42 @@ fn gen_c05_grid(id: usize) -> Group {
     g
 }
 
+/// C05 regex grid: every capture-group index 0..4 against patterns with optional / alternative / missing groups
+const C05_RE_PATS: &[&str] = &["[a-z ]+([0-9]+)[a-z ]+", "(x)?hello", "(a)|(b)", "(a)(b)?", "no groups"];
+const C05_RE_SUBJ: &[&str] = &["hello 200 world", "hello", "b", "a", "no groups", ""];
+pub fn c05_regex_grid_size() -> usize {
+    C05_RE_PATS.len() * C05_RE_SUBJ.len() * 5
+}
+fn gen_c05_regex_grid(k: usize) -> Group {
+    let (np, ns) = (C05_RE_PATS.len(), C05_RE_SUBJ.len());
+    let _ = np;
+    let pat = C05_RE_PATS[k / (ns * 5)];
+    let subj = C05_RE_SUBJ[(k / 5) % ns];
+    let idx = k % 5;
+    let q = |t: &str| format!("\"{}\"", t);
+    let mut c = case(format!("C05-re{k}"));
+    c.spec.utf8 = true;
+    c.spec.selects.push(format!("(extract_regex_group {} {} {idx})=x", q(subj), q(pat)));
+    c.spec.selects.push(format!("(match {} {})=m", q(subj), q(pat)));
+    c.sources.push(stdin_src(b"null".to_vec()));
+    // the model takes regular expressions as given facts; they are computed with the `regex` crate directly
+    let re = regex::Regex::new(pat).ok();
+    let grp = re.as_ref().and_then(|re| re.captures(subj)).and_then(|cp| cp.get(idx).map(|m| q(m.as_str())));
+    c.orc.push(("extract_regex_group".into(), vec![q(subj), q(pat), idx.to_string()], grp));
+    let m = re.as_ref().map(|re| if re.is_match(subj) { "true".to_string() } else { "false".to_string() });
+    c.orc.push(("match".into(), vec![q(subj), q(pat)], m));
+    let mut g = Group::new(vec![c]);
+    g.tag = format!("regex-grid {pat} {subj} {idx}");
+    g.labels.push("kind:regex-grid".into());
+    g
+}
+
 pub fn gen_c05(r: &mut Rng, id: usize, _thorough: bool) -> Group {
     if id < c05_grid_size() {
         return gen_c05_grid(id);
+    }
+    if id < c05_grid_size() + c05_regex_grid_size() {
+        return gen_c05_regex_grid(id - c05_grid_size());
     }
     if r.chance(50) {
         return crate::oracle_b::gen_c05_extra(r, id);
@@ -394,8 +455,11 @@ pub fn gen_c07(r: &mut Rng, id: usize) -> Group {
     }
     if r.chance(25) {
         // the sorting functions
-        let n = r.range(0, 8);
-        let l: Vec<V> = (0..n).map(|i| V::Obj(vec![("k".into(), r.pick(&u).clone()), ("i".into(), V::Int(i as i128))])).collect();
+        let big = r.chance(30);
+        let n = if big { r.range(33, 60) } else { r.range(0, 8) };
+        // long lists draw their keys from three values only, so that there are many ties
+        let few: Vec<V> = (0..3).map(|_| r.pick(&u).clone()).collect();
+        let l: Vec<V> = (0..n).map(|i| V::Obj(vec![("k".into(), if big { r.pick(&few).clone() } else { r.pick(&u).clone() }), ("i".into(), V::Int(i as i128))])).collect();
         let keys: Vec<V> = (0..n).map(|_| r.pick(&u).clone()).collect();
         let obj = V::Obj(l.iter().enumerate().map(|(i, v)| (format!("m{i}"), v.clone())).collect());
         let rec = V::Obj(vec![("l".into(), V::Arr(l)), ("p".into(), V::Arr(keys)), ("o".into(), obj)]);
@@ -484,7 +548,9 @@ pub fn gen_c09(r: &mut Rng, id: usize) -> Group {
 pub fn gen_c10(r: &mut Rng, id: usize) -> Group {
     // universe with many repeats and numerically equal spellings; serialised with spelling variety
     let spell_pool: &[&str] = &["1", "1.0", "1e0", "10e-1", "2", "2.0", "\"a\"", "\"\\u0061\"", "\"b\"", "null", "true", "[1,2]", "[1.0,2]", "[1, 2]", "{\"a\":1}", "{\"a\":1.0}", "{\"a\": 1}",
-                              "0.5", "5e-1", "\"\"", "[]", "{}", "[[1]]", "[[1.0]]", "\"é\"", "\"\\u00e9\"", "100", "1e2", "1E2"];
+                              "0.5", "5e-1", "\"\"", "[]", "{}", "[[1]]", "[[1.0]]", "\"é\"", "\"\\u00e9\"", "100", "1e2", "1E2",
+                              // zero in its (non-negative) spellings: all the same number
+                              "0", "0.0", "0e0", "0.00", "0E3", "[0,1]", "[0.0,1]", "{\"a\":0}", "{\"a\":0.0}"];
     let n = r.range(0, 40);
     let mut text = String::new();
     let selections = r.below(3);
@@ -1680,6 +1746,19 @@ pub fn oracle(prop: &str, g: &Group, obs: &[Obs]) -> Option<String> {
             None
         }
         "C03" | "C06" | "C07" => crate::oracle_a::oracle(prop, g, obs),
+        "C04" if g.tag.starts_with("arith-illtyped") => {
+            // "If all the arguments are number …": one argument that is not a number (or absent) ⇒ nothing
+            let o = &obs[0];
+            if o.res != "ok" {
+                return Some(format!("{}: run gave {}", g.tag, o.res));
+            }
+            for row in parse_rows(&o.out, "\n").ok()? {
+                if get_key(&row, "x").is_some() {
+                    return Some(format!("{}: an argument is not a number, yet the result is {}", g.tag, value::render(&row)));
+                }
+            }
+            None
+        }
         "C04" | "C05" | "C15" | "C19" | "C20" => crate::oracle_b::oracle(prop, g, obs),
         _ => None,
     }
